@@ -329,6 +329,7 @@ pub fn run_check(check: &dyn Check, opts: &Options) -> i32 {
     let mut all_findings: Vec<(u64, Finding)> = Vec::new();
     let mut harness_errors: Vec<String> = Vec::new();
     let mut crashes = 0u64;
+    let mut hangs = 0u64;
     let watchdog = Duration::from_secs(check.watchdog_s());
 
     while !workers.is_empty() {
@@ -406,11 +407,21 @@ pub fn run_check(check: &dyn Check, opts: &Options) -> i32 {
                     },
                 ));
                 // statistics of the dead worker are lost (conservative); resume after the culprit
-                let (from, skip) = if check.announce() && v.subs_seen > 0 {
+                // after an abort the rest of the case still runs (skipping the culprit); after a
+                // hang the rest of the case is skipped: neighbouring sub-cases tend to hang as well
+                // and each costs a full watchdog period
+                let (from, skip) = if check.announce() && v.subs_seen > 0 && !hang {
                     (idx, v.subs_seen)
                 } else {
                     (idx + n_workers, 0)
                 };
+                if hang {
+                    hangs += 1;
+                    if hangs > 24 {
+                        println!("nsim: more than 24 hangs; the remaining cases of this worker's slice are not run");
+                        continue;
+                    }
+                }
                 if crashes > 5000 {
                     harness_errors.push("more than 5000 worker deaths; giving up resuming".into());
                     continue;
